@@ -67,6 +67,7 @@ type TypeContract struct {
 	OwnsChan   []string  // chan-typed fields whose channels are closed only under the type's own protocol
 	ChanUnder  map[string]string // chan field -> "Type.lockfield": every close of the field's channel happens under a lock of that class
 	RestInvs   []*Clause // monitor invariants that hold only while the lock is free (not at hand-over or helper calls inside a critical section)
+	WgAddsUnder map[string]string // WaitGroup field -> "pkg.Type.lockfield": every Add on WaitGroups of that field happens under a lock of that class
 	ObjInvs    []*Clause // hold for every object of the type from the moment it is shared (checked when it stops being thread-local and after stores to the fields they mention)
 	SyncMaps   map[string]string // sync.Map field -> type text of the values it holds (non-nil pointers of that type)
 	File       string
@@ -108,7 +109,7 @@ var clauseKeywords = map[string]bool{
 	"nopanic": true, "arith": true, "inv": true, "decreases": true, "assert": true, "callee": true,
 	"stable": true, "escapable": true, "thread-entry": true, "split": true, "inline": true, "pure": true,
 	"monitor": true, "invariant": true, "rely": true, "self": true, "maypanic": true, "havoc": true,
-	"assume": true, "entry-assume": true, "ownschan": true, "strong-invariant": true, "ghostfield": true, "interferes": true, "ghost": true, "unroll": true, "trusted": true, "syncmap": true, "object-invariant": true, "rest-invariant": true,
+	"assume": true, "entry-assume": true, "ownschan": true, "strong-invariant": true, "ghostfield": true, "interferes": true, "ghost": true, "unroll": true, "trusted": true, "syncmap": true, "object-invariant": true, "rest-invariant": true, "wgadds": true,
 }
 var blockKeywords = map[string]bool{"type": true, "func": true, "spec": true, "lemma": true, "assume-contract": true, "global": true, "chan": true}
 
@@ -325,6 +326,20 @@ func (cs *Contracts) parseFile(path string) error {
 						curT.GhostFields = map[string]string{}
 					}
 					curT.GhostFields[fs[0]] = fs[1]
+				case "wgadds":
+					// wgadds FIELD under LOCKFIELD | Type.LOCKFIELD
+					fs := strings.Fields(l.rest)
+					if len(fs) != 3 || fs[1] != "under" {
+						return fmt.Errorf("%s:%d: wgadds FIELD under LOCK", path, l.line)
+					}
+					if curT.WgAddsUnder == nil {
+						curT.WgAddsUnder = map[string]string{}
+					}
+					cls := fs[2]
+					if !strings.Contains(cls, ".") {
+						cls = curT.Name + "." + cls
+					}
+					curT.WgAddsUnder[fs[0]] = pkg + "." + cls
 				case "rest-invariant":
 					c, err := mkClause("invariant", l.rest, path, l.line)
 					if err != nil {
